@@ -1,4 +1,5 @@
 import Eliot.Properties.C08
+import Eliot.Properties.C08Dyn
 #print axioms Sys.C08.prim
 #print axioms Sys.C08.offered_same_everywhere
 #print axioms Sys.C08.healthy_unaffected
@@ -10,3 +11,18 @@ import Eliot.Properties.C08
 #print axioms Sys.fan_deliver
 #print axioms Sys.fan_send
 #print axioms Sys.execB_lift
+#print axioms Sys.C08.reg_preserved
+#print axioms Sys.C08.calls_exact
+#print axioms Sys.C08.offered_while_registered
+#print axioms Sys.C08.healthy_accepts_while_registered
+#print axioms Sys.C08.nothing_before_first_add
+#print axioms Sys.C08.offered_since
+#print axioms Sys.C08.unregistered_gets_nothing
+#print axioms Sys.C08.removed_gets_nothing_after
+#print axioms Sys.C08.removed_gets_nothing_after_run
+#print axioms Sys.C08.added_later_gets_nothing_before
+#print axioms Sys.C08.offered_same_everywhere_reg
+#print axioms Sys.C08.run_offered_eq_stage_reg
+#print axioms Sys.reg_deliver
+#print axioms Sys.reg_addDests
+#print axioms Sys.execB_liftQ
